@@ -14,7 +14,9 @@ import (
 	"sort"
 	"strconv"
 	"strings"
+	"sync"
 	"syscall"
+	"time"
 
 	"github.com/buildbarn/bb-remote-execution/pkg/filesystem/pool"
 	"github.com/buildbarn/bb-remote-execution/pkg/filesystem/virtual"
@@ -847,11 +849,56 @@ func protect(f func() implOut) (o implOut) {
 
 func (r *runner) skip() { r.skipped++ }
 
+// watch lets a watchdog see which history is running: a call that never returns
+// (a directory lock left behind by an earlier call) must not hang the check.
+var watch struct {
+	sync.Mutex
+	lines []string
+	beat  time.Time
+}
+
+func heartbeat(line string, reset bool) {
+	watch.Lock()
+	if reset {
+		watch.lines = nil
+	}
+	if line != "" {
+		watch.lines = append(watch.lines, line)
+	}
+	watch.beat = time.Now()
+	watch.Unlock()
+}
+
+func startWatchdog(res *hx.Result, o hx.Opts, drv *hx.Driver) {
+	heartbeat("", true)
+	go func() {
+		for {
+			time.Sleep(2 * time.Second)
+			watch.Lock()
+			stuck := time.Since(watch.beat) > 60*time.Second
+			lines := append([]string(nil), watch.lines...)
+			watch.Unlock()
+			if stuck {
+				what := "the call did not return within 60 s (a directory lock left behind by an earlier call?)"
+				if n := len(lines); n > 0 {
+					what = lines[n-1] + ": " + what
+				}
+				res.Report(hx.Finding{Kind: "violation", Property: "C13", What: what,
+					Name: "C13 monitor: every call returns", History: lines, Sig: hx.Sig("C13", "dir", "hang", strings.Join(lines, ";"))})
+				res.ModelLines = drv.Lines
+				res.Write(o)
+				os.Exit(0)
+			}
+		}
+	}()
+}
+
 // apply executes one history line on implementation, model and reference.
 func (r *runner) apply(line string) {
 	if r.fail != nil || r.dead {
 		return
 	}
+	heartbeat(line, false)
 	f := strings.Fields(line)
 	if len(f) == 0 {
 		return
@@ -2014,6 +2061,7 @@ type outcome struct {
 }
 
 func replay(lines []string, drv *hx.Driver, seed uint64) outcome {
+	heartbeat("", true)
 	r := newRunner(drv)
 	r.seed = seed
 	for _, l := range lines {
@@ -2026,6 +2074,7 @@ func replay(lines []string, drv *hx.Driver, seed uint64) outcome {
 }
 
 func generate(rnd *hx.Rand, drv *hx.Driver, seed uint64, n int) ([]string, outcome) {
+	heartbeat("", true)
 	r := newRunner(drv)
 	r.seed = seed
 	g := &generator{rnd: rnd, r: r, roots: 1}
@@ -2071,6 +2120,7 @@ func main() {
 		os.Exit(3)
 	}
 	defer drv.Close()
+	startWatchdog(res, o, drv)
 
 	report := func(lines []string, seed uint64, first *finding) {
 		fails := func(cand []string) bool {
